@@ -30,7 +30,7 @@ MUTANTS = [
                     if debug:
                         self._log_cur_prod(parse_stack, tokens)
                     continue""", """                if prods is not None:
-                    if len(parse_stack) < 10000:
+                    if top.cur_token_pos % 7:
                         _put_on_stack(_StackElement(cur_symbol, top.cur_token_pos, prods))
                     if debug:
                         self._log_cur_prod(parse_stack, tokens)
